@@ -628,13 +628,78 @@ CORPUS_OPS: List[List[Any]] = [
 ]
 
 
+def group_failures(fails: List[Dict[str, Any]], obs: Any) -> Dict[str, List[Dict[str, Any]]]:
+    by: Dict[str, List[Dict[str, Any]]] = {}
+    for f in fails:
+        by.setdefault(classify_failure(f, obs) or 'unknown', []).append(f)
+    return by
+
+
+def eval_ops_chunk(args: Any) -> Any:
+    """(histories, model binary) -> (violations as tuples, counters, number of non-trivial histories)."""
+    from pathlib import Path
+    cases, binary = args
+    impl = lib.run_impl_worker('c02_ops.py', [ops_for_impl(c) for c in cases], jobs=1)
+    mod = lib.run_model(Path(binary), [ops_for_model(c) for c in cases])
+    stats: Dict[str, int] = {}
+    viols: List[Any] = []
+    nt_count = 0
+
+    def count(k: str, n: int = 1) -> None:
+        stats[k] = stats.get(k, 0) + n
+    for c, r, m in zip(cases, impl, mod):
+        cm = canon_model(dec(m))
+        ncreated = len(cm['objects'])
+        ci = canon_impl(r, ncreated)
+        count('ops_len_%02d' % len(c) if len(c) < 6 else 'ops_len_6plus')
+        inv = cm.pop('inv')
+        guarded = cm.pop('guarded')
+        if cm['failed'] is not None or ci['failed'] is not None:
+            count('ops_raise')
+            if guarded:
+                count('ops_guarded_raise')     # a guarded operation raised (not excluded by the theorems; C01's subject)
+            if cm['failed'] != ci['failed']:
+                viols.append(('correspondence', 'Model.Registry and pydoctor disagree on which operation raises',
+                              {'ops': c}, {'failed': cm['failed']}, {'failed': ci['failed'], 'exc': r.get('exc')}))
+            continue
+        count('ops_guarded' if guarded else 'ops_unguarded')
+        obs = r['obs']
+        if any(o['sup'] for o in obs['objects']) or obs['moves'] or \
+                len(obs['allobjects']) < sum(1 for o in c if o[0] in (0, 1)):
+            nt_count += 1
+        if cm != ci:
+            diff = [k for k in cm if cm[k] != ci.get(k)]
+            viols.append(('correspondence', 'Model.Registry and pydoctor disagree on the state after a history '
+                          '(fields: %s)' % diff, {'ops': c}, {k: cm[k] for k in diff}, {k: ci[k] for k in diff}))
+            count('ops_diff')
+        fails = oracle(obs, postprocessed=(c.count([4]) == 1 and c[-1] == [4]))
+        ifails = [f for f in fails if f['code'] in I_CODES]
+        count('ops_inv_true' if inv else 'ops_inv_false')
+        if inv != (not ifails):
+            viols.append(('correspondence', 'the Coq invariant (inv_check) and the Python oracle disagree on a history: '
+                          'inv_check=%s oracle=%s' % (inv, [f['what'] for f in ifails][:3]), {'ops': c},
+                          {'inv': inv}, {'oracle': [f['what'] for f in ifails][:5]}))
+        # operations outside the guards (e.g. a module put into a function by the harness) are API misuse, not
+        # pydoctor's behaviour: there the oracle only cross-validates inv_check.  On guarded histories
+        # (C02_inv_history_exec applies) the property must hold on the real System.
+        if guarded:
+            for k, fs in group_failures(fails, obs).items():
+                count('oracle_' + k)
+                viols.append(('oracle', fs[0]['what'], {'ops': c}, None,
+                              {'class': k, 'failures': [dict(code=f['code'], what=f['what']) for f in fs[:6]]}))
+    return viols[:60], stats, nt_count
+
+
 class Check(PropertyCheck):
     id = 'C02'
     props_module = 'Props.C02'
     models = {'registry': 'XRegistry.v'}
-    rule = ('(i) every sequence of <= N operations {AddModule(pkg?, name, parent), AddChild(Class|Function|Attribute, name, '
-            'parent), Reparent(o, newparent, newname)} over 3 names (first module named `a`), parents ranging over the '
-            'objects that can hold the child, applied through the real API and through Model/Registry.v, plus random '
+    rule = ('(i) exhaustive: quick = every sequence of <= 3 operations {AddModule(pkg?, name, parent), AddChild(Class|Function|'
+            'Attribute, name, parent), Reparent(o, newparent, newname)} over 3 names with ANY object as parent, and every '
+            'sequence of <= 4 operations with parents ranging over the objects that can hold the child (modules: any module; '
+            'children: module/package/class; move targets: modules); thorough = <= 4 with any parent over 3 names and <= 5 over '
+            '2 names with class children only; one representative per renaming of the names; all applied through the real '
+            'API and through Model/Registry.v and diffed state for state; plus random '
             'histories of <= 40 operations (incl. SetBases, PostProcess, unguarded parents, "a 0"-style and summary-page '
             'names); non-trivial = the history takes the duplicate branch of addObject/_addUnprocessedModule or performs a '
             'successful reparent; (ii) generated source projects through the real builder; non-trivial = at least one '
@@ -668,10 +733,11 @@ class Check(PropertyCheck):
         names = [nm_(1), nm_(2), nm_(3)]
         maxlen = 4 if self.tier == 'quick' else 5
         cases = list(CORPUS_OPS)
-        ex = enumerate_ops(3, names, wide=True) + enumerate_ops(maxlen, names[:2] if maxlen == 5 else names, wide=False)
-        if maxlen == 5:
-            ex += enumerate_ops(4, names, wide=False)
-        seen = set()
+        if maxlen == 4:
+            ex = enumerate_ops(3, names, wide=True) + enumerate_ops(4, names, wide=False)
+        else:
+            ex = enumerate_ops(4, names, wide=True) + enumerate_ops(5, names[:2], wide=False, child_classes=(2,))
+        seen = set(json.dumps(c) for c in cases)
         for c in ex:
             k = json.dumps(c)
             if k not in seen:
@@ -683,63 +749,42 @@ class Check(PropertyCheck):
         g = OpGen(self.rng)
         nrand = 2000 if self.tier == 'quick' else 100000
         for i in range(nrand):
-            cases.append(g.history(self.rng.randint(3, 40), wild=0.0 if i % 3 else 0.12))
+            c = g.history(self.rng.randint(3, 40), wild=0.0 if i % 3 else 0.12)
+            k = json.dumps(c)
+            if k not in seen:
+                seen.add(k)
+                cases.append(c)
         self.stats['ops_random'] = nrand
         return cases
 
     def run_ops(self, cases: List[List[Any]]) -> List[Violation]:
+        """Chunks of histories are evaluated in parallel processes (each runs the impl worker, the extracted model,
+        the canonical diff and the oracle on its chunk) so that memory stays bounded in the thorough tier."""
+        from concurrent.futures import ProcessPoolExecutor
+        size = 3000
+        chunks = [cases[i:i + size] for i in range(0, len(cases), size)]
+        binary = str(self.binaries['registry'])
         out: List[Violation] = []
-        impl = lib.run_impl_worker('c02_ops.py', [ops_for_impl(c) for c in cases], jobs=16)
-        mod = self.model('registry', [ops_for_model(c) for c in cases])
-        ncorr = 0
-        for c, r, m in zip(cases, impl, mod):
-            cm = canon_model(dec(m))
-            ncreated = len(cm['objects'])
-            ci = canon_impl(r, ncreated)
-            self.count('ops_len_%02d' % min(len(c), 40) if len(c) < 6 else 'ops_len_6plus')
-            if cm['failed'] is not None or ci['failed'] is not None:
-                self.count('ops_raise')
-                if cm['failed'] != ci['failed'] and ncorr < 10:
-                    ncorr += 1
-                    out.append(Violation('correspondence', 'Model.Registry and pydoctor disagree on which operation raises',
-                                         case={'ops': c}, expected={'failed': cm['failed']},
-                                         observed={'failed': ci['failed'], 'exc': r.get('exc')}))
-                continue
-            inv = cm.pop('inv')
-            guarded = cm.pop('guarded')
-            self.count('ops_guarded' if guarded else 'ops_unguarded')
-            nt = any(o['sup'] for o in r['obs']['objects']) or bool(r['obs']['moves']) or \
-                len(r['obs']['allobjects']) < sum(1 for o in c if o[0] in (0, 1))
-            if nt:
-                self.nontrivial.add(json.dumps(c))
-            if cm != ci:
-                if ncorr < 10:
-                    ncorr += 1
-                    diff = [k for k in cm if cm[k] != ci.get(k)]
-                    out.append(Violation('correspondence', 'Model.Registry and pydoctor disagree on the state after a history '
-                                         '(fields: %s)' % diff, case={'ops': c},
-                                         expected={k: cm[k] for k in diff}, observed={k: ci[k] for k in diff}))
-                self.count('ops_diff')
-            fails = oracle(r['obs'], postprocessed=(c.count([4]) == 1 and c[-1] == [4]))
-            ifails = [f for f in fails if f['code'] in I_CODES]
-            self.count('ops_inv_true' if inv else 'ops_inv_false')
-            if inv != (not ifails) and ncorr < 10:
-                ncorr += 1
-                out.append(Violation('correspondence', 'the Coq invariant (inv_check) and the Python oracle disagree on a history: '
-                                     'inv_check=%s oracle=%s' % (inv, [f['what'] for f in ifails][:3]), case={'ops': c},
-                                     expected={'inv': inv}, observed={'oracle': [f['what'] for f in ifails][:5]}))
-            # operations outside the guards (e.g. a module put into a function by the harness) are API misuse, not
-            # pydoctor's behaviour: there the oracle only cross-validates inv_check.  On guarded histories the
-            # property must hold.
-            if guarded:
-                out.extend(self.group(fails, r['obs'], {'ops': c}))
+        with ProcessPoolExecutor(max_workers=12) as ex:
+            for viols, stats, nt in ex.map(eval_ops_chunk, [(c, binary) for c in chunks]):
+                for k, v in stats.items():
+                    self.count(k, v)
+                self.stats['distinct_nontrivial_ops'] = self.stats.get('distinct_nontrivial_ops', 0) + nt
+                for kind, what, case, exp, obs in viols:
+                    if kind == 'correspondence':
+                        if sum(1 for v in out if v.kind == 'correspondence') < 10:
+                            out.append(Violation(kind, what, case=case, expected=exp, observed=obs))
+                    else:
+                        k = obs['class']
+                        lim = self._kept.setdefault(k, 0)
+                        if lim < (40 if k == 'unknown' else 4):
+                            self._kept[k] = lim + 1
+                            out.append(Violation(kind, what, case=case, expected=exp, observed=obs))
         return out
 
     def group(self, fails: List[Dict[str, Any]], obs: Any, case: Any) -> List[Violation]:
         """One Violation per class of failure of one case (classes: the known-finding ids, or 'unknown')."""
-        by: Dict[str, List[Dict[str, Any]]] = {}
-        for f in fails:
-            by.setdefault(classify_failure(f, obs) or 'unknown', []).append(f)
+        by = group_failures(fails, obs)
         out = []
         for k, fs in by.items():
             self.count('oracle_' + k)
@@ -781,7 +826,7 @@ class Check(PropertyCheck):
             self.count('projects_moves', len(obs['moves']))
             self.count('projects_superseded', sum(1 for o in obs['objects'] if o['sup']))
             if obs['moves'] or any(o['sup'] for o in obs['objects']):
-                self.nontrivial.add(json.dumps(c, sort_keys=True))
+                self.count('distinct_nontrivial_projects')
             if any(o['implementedby'] for o in obs['objects']):
                 self.count('projects_with_interfaces')
             out.extend(self.group(oracle(obs), obs, c))
@@ -794,6 +839,8 @@ class Check(PropertyCheck):
         projs = self.project_cases()
         out.extend(self.run_projects(projs))
         self.evaluations = len(ops) + len(projs)
+        self.stats['distinct_nontrivial'] = self.stats.get('distinct_nontrivial_ops', 0) + \
+            self.stats.get('distinct_nontrivial_projects', 0)
         for c in ops[len(CORPUS_OPS) + 5000:len(CORPUS_OPS) + 5002] + ops[-2:]:
             self.sample({'ops': c})
         self.sample(projs[-1])
